@@ -236,6 +236,12 @@ def run(ctx):
         for key7, c7 in list(eng7.ctxs.items()):
             if len(key7) != 2 or key7[0] not in (L2C, EST):
                 continue
+            # only the lookup under the stated domain and the estimates it asks for (the engine may hold other contexts
+            # of the same functions, e.g. with unconstrained arguments for a struct-field invariant)
+            if key7[0] == L2C and key7 != (L2C, dom):
+                continue
+            if key7[0] == EST and not any((cp_, ca_) == (L2C, dom) for cp_, ca_, _s in eng7.callers.get(key7, ())):
+                continue
             f7 = c7.ft
             for b7 in sorted(f7.cfg.reach):
                 if f7.blocks[b7].get("cleanup"):
